@@ -199,6 +199,12 @@ theorem same_file_sequential :
     ((runN C19.S0 (List.replicate 9 0 ++ List.replicate 9 1) (fs1, two)).2 0).pc matches .done (.ok 5105) ∧
     ((runN C19.S0 (List.replicate 9 0 ++ List.replicate 9 1) (fs1, two)).2 1).pc matches .done (.ok 5105) := by decide
 
+/-- overlapping, but harmless: both find no side file, A creates, writes, reads and removes its side
+    file while B is still decoding the document, then B does the same — both return the lone result -/
+theorem same_file_overlap_ok :
+    ((runN C19.S0 [0, 1, 0, 0, 0, 1, 1, 0, 0, 0, 0, 0, 1, 1, 1, 1, 1, 1, 1] (fs1, two)).2 0).pc matches .done (.ok 5105) ∧
+    ((runN C19.S0 [0, 1, 0, 0, 0, 1, 1, 0, 0, 0, 0, 0, 1, 1, 1, 1, 1, 1, 1] (fs1, two)).2 1).pc matches .done (.ok 5105) := by decide
+
 /-! ### the process-wide NodeId cache is transparent -/
 def CacheOk {K V : Type} (f : K → V) (cache : List (K × V)) : Prop := ∀ e ∈ cache, e.2 = f e.1
 
